@@ -53,7 +53,7 @@ def generate():
     out.append('(* UNIT_PREFIX_EXPONENT, in source order *)')
     out.append('Definition unit_prefix_exponent : list (str * Z) := [%s].' % '; '.join('(%s, %d%%Z)' % (lit(k), v) for k, v in table.items()))
     for i, (k, base, rx) in enumerate(systems):
-        out.append('(* UNIT_SYSTEM_INFO[%r]: %s *)' % (k, _cm(rx.pattern)))
+        out.append('(* UNIT_SYSTEM_INFO[%s]: %s *)' % (_cm(repr(k)), _cm(rx.pattern)))
         out.append('Definition unit_re_%d : re := %s.' % (i, terms[i]))
     out.append('Definition unit_system_info : list (str * (option Z * re)) := [%s].' % '; '.join(
         '(%s, (%s, unit_re_%d))' % (lit(k), 'None' if base is None else 'Some %d%%Z' % base, i) for i, (k, base, rx) in enumerate(systems)))
